@@ -75,7 +75,7 @@ func isFreshSlice(v ssa.Value, seen map[ssa.Value]bool) bool {
 func checkFreshKeyBuffers(c *Ctx, rule string, scope []string) {
 	p := c.P
 	n := 0
-	for _, fn := range p.OwnFuncs {
+	for _, fn := range p.Subjects() {
 		if !inScope(fn, scope) || len(fn.Blocks) == 0 {
 			continue
 		}
@@ -140,7 +140,7 @@ func isMutexType(t types.Type) (isMutex, isPtr bool) {
 func checkSharedStateSharedLock(c *Ctx, rule string, scope []string, min int) {
 	p := c.P
 	n := 0
-	for _, fn := range p.OwnFuncs {
+	for _, fn := range p.Subjects() {
 		if !inScope(fn, scope) || len(fn.Blocks) == 0 {
 			continue
 		}
@@ -239,7 +239,7 @@ func checkSharedStateSharedLock(c *Ctx, rule string, scope []string, min int) {
 // one value of the type into a newly built one (so that several handles point at one object).
 func sharedRefFields(p *Program, scope []string) map[string]map[string]bool {
 	out := map[string]map[string]bool{}
-	for _, fn := range p.OwnFuncs {
+	for _, fn := range p.Subjects() {
 		if !inScope(fn, scope) || len(fn.Blocks) == 0 {
 			continue
 		}
@@ -309,7 +309,7 @@ func checkSharedRefNotRepointed(c *Ctx, rule string, scope []string, min int) {
 		for f := range fields {
 			n++
 			var bad []string
-			for _, fn := range p.OwnFuncs {
+			for _, fn := range p.Subjects() {
 				if !inScope(fn, scope) || len(fn.Blocks) == 0 {
 					continue
 				}
